@@ -162,6 +162,11 @@ func (v4proto) BuildRequest(xid uint32, serial uint32) (interface{}, []byte) {
 	if serial%4 == 0 {
 		p.NumSeconds = 3
 	}
+	if k := (serial / 2) % 6; k > 0 {
+		// not only DISCOVER: SendAndRead sends any message
+		p.UpdateOption(dhcpv4.OptMessageType([]dhcpv4.MessageType{dhcpv4.MessageTypeDiscover, dhcpv4.MessageTypeRequest, dhcpv4.MessageTypeInform,
+			dhcpv4.MessageTypeRequest, dhcpv4.MessageTypeDecline, dhcpv4.MessageTypeRelease}[k]))
+	}
 	return p, p.ToBytes()
 }
 
@@ -362,6 +367,9 @@ func (v6proto) BuildRequest(xid uint32, serial uint32) (interface{}, []byte) {
 	if err != nil {
 		panic(err)
 	}
+	// SendAndRead sends any message: the kind of message must not matter to routing, timing or retries
+	m.MessageType = []dhcpv6.MessageType{dhcpv6.MessageTypeSolicit, dhcpv6.MessageTypeRequest, dhcpv6.MessageTypeSolicit, dhcpv6.MessageTypeRenew,
+		dhcpv6.MessageTypeInformationRequest, dhcpv6.MessageTypeRebind, dhcpv6.MessageTypeRequest, dhcpv6.MessageTypeConfirm, dhcpv6.MessageTypeRelease}[(serial/2)%9]
 	return m, m.ToBytes()
 }
 
